@@ -29,7 +29,10 @@ Proof.
   destruct c; simpl; intros H; try discriminate; try exact I.
   induction choices as [|c1 l IH]; [exact I|].
   simpl in H. apply andb_true_iff in H as [H1 H2].
-  destruct (ser e c1 (VList data) idx) as [[r|]|]; auto using leaf_accepts.
+  destruct (ser e c1 (VList data) idx) as [[r|]|].
+  - apply leaf_accepts; exact H1.
+  - apply IH; exact H2.
+  - apply leaf_accepts; exact H1.
 Qed.
 
 Lemma flat_rooms_free c : flat c = true -> rooms_free c = true.
